@@ -293,6 +293,7 @@ pub fn run(opts: &Opts, out: &mut Emitter) {
         json!("170141183460469231731687303715884105728"), json!("-170141183460469231731687303715884105729"),
         json!("0x00000000000000000000000000000001"), json!("0x000000000000000000000000000001"), json!("0xffffffffffffffffffffffffffffffff"),
         json!(18446744073709551615u64), json!(-9223372036854775808i64), json!(1.0), json!(2), json!("TRUE"), json!("1"),
+        json!(3), json!(7), json!(255), json!(256), json!(-1), json!(4294967296u64), json!("0"), json!("yes"), json!("True"), json!(0.0),
         json!({"content": "ff", "contentType": "hex", "payload": "aa"}), json!({"content": "ff"}), json!({"contentType": "hex"}),
         json!({"content": "ff", "contentType": "HEX"}), json!({"content": 5, "contentType": "hex"}), json!({"content": "/w==", "contentType": "base64"}),
         json!({"content": "!!", "contentType": "base64"}), json!(null), json!([1, 2]),
